@@ -205,6 +205,25 @@ func (c *Ctx) willArgument() {
 	}
 }
 
+// isFieldOrStoredInto: v is a load of the named field, or the object that the function stores into that field
+// (a local holding the fresh object: `cmsg := NewConnectMessage(); s.Cmsg = cmsg`).
+func isFieldOrStoredInto(v ssa.Value, field string) bool {
+	if p := ir.PathOf(v); len(p.Fields) > 0 && p.Fields[len(p.Fields)-1] == field {
+		return true
+	}
+	obj := ir.SeeThrough(v)
+	if refs := obj.Referrers(); refs != nil {
+		for _, ref := range *refs {
+			if st, ok := ref.(*ssa.Store); ok && st.Val == obj {
+				if sp := ir.PathOf(st.Addr); len(sp.Fields) > 0 && sp.Fields[len(sp.Fields)-1] == field {
+					return true
+				}
+			}
+		}
+	}
+	return false
+}
+
 // sessionConnectAndWill: T5 {Cmsg, Will} and T6 (will mapping) in package sessions.
 func (c *Ctx) sessionConnectAndWill() {
 	c.R.Rule("T6-will-mapping", "the will PUBLISH is built from the stored CONNECT with all four of QoS, topic, payload and retain flag, each from the matching getter.")
@@ -303,8 +322,7 @@ func (c *Ctx) sessionConnectAndWill() {
 				if !ok || !ir.IsMethod(gc.Common(), pkgMessage, "ConnectMessage", getter) {
 					return false
 				}
-				gp := ir.PathOf(gc.Common().Args[0])
-				return len(gp.Fields) > 0 && gp.Fields[len(gp.Fields)-1] == "Cmsg"
+				return isFieldOrStoredInto(gc.Common().Args[0], "Cmsg")
 			}
 			key := fmt.Sprintf("%s:will.%s(Cmsg.%s())", fn.Name(), setter, getter)
 			if p := mustPass(g, entry, m, withWill); p != nil {
